@@ -49,6 +49,19 @@ POSITIONS = {
     'struct': ('names', 'funcs', 'typesyntax', 'gdecl', 'garrinit'),
 }
 
+# the named action of Types.tla (section 9) that judges each position; all of them must fire in every run
+ACTION_OF = {
+    'stmt': 'ExprStatement', 'decl': 'Declaration', 'specdecl': 'Declaration', 'forinit': 'Declaration',
+    'nesteddecl': 'Declaration', 'trydecl': 'Declaration', 'deadcode': 'Declaration', 'arrinit': 'ArrayInit',
+    'assign': 'Assignment', 'inc': 'IncAssignment', 'forstep': 'IncAssignment', 'arg': 'CallArgument',
+    'sleep': 'CallArgument', 'write': 'BuiltinWrite', 'ret': 'ReturnValue', 'noret': 'ReturnNothing',
+    'if': 'Condition', 'while': 'Condition', 'for': 'Condition', 'operand': 'Operand', 'unary': 'Operand',
+    'spec': 'Operand', 'idxsrc': 'IndexLength', 'idxidx': 'IndexLength', 'len': 'IndexLength',
+    'elem': 'ArrayElement', 'is': 'IsCast', 'overload': 'Call', 'overload2': 'Call', 'arity': 'Call',
+    'writeext': 'Call', 'undeclared': 'Call', 'names': 'NameStart/NameStep', 'funcs': 'FuncStep',
+    'typesyntax': 'TypeSyntax', 'gdecl': 'GlobalDeclaration', 'garrinit': 'GlobalArrayInit',
+}
+
 ASSUMPTIONS = (
     'front end only: parse(...).evaluate(Environment.empty()); code generation is C01/C10',
     'trusted binding: the prelude/templates of hv/types_cases.py declare exactly the atoms of Types.tla!AtomTab; '
@@ -81,7 +94,9 @@ def _judge(c, outcome, bound, obs):
     if outcome == 'reject':
         return 'rejected_welltyped'
     if obs is not None:
-        if c.ov < 1 or c.ov > len(obs['sigs']) or bound is None:
+        if bound is None:
+            return 'unobservable'       # the call node was not found in the checked tree: not a verdict
+        if c.ov < 1 or c.ov > len(obs['sigs']):
             return 'wrong_overload'
         if bound['sig'] != obs['sigs'][c.ov - 1]:
             return 'wrong_overload'
@@ -99,8 +114,12 @@ def _run_chunk(chunk):
         key = (c.pos, c.verdict, outcome)
         stats[key] = stats.get(key, 0) + 1
         kind = _judge(c, outcome, bound, obs)
-        if kind:
+        if kind == 'unobservable':
+            stats['unobservable'] = stats.get('unobservable', 0) + 1
+        elif kind:
             bad.append((c, kind, outcome, msg, bound, src))
+        if obs is not None and outcome == 'accept' and kind != 'unobservable':
+            stats['bindings'] = stats.get('bindings', 0) + 1
     return bad, stats
 
 
@@ -178,9 +197,14 @@ def run(tier, seed, cache=None, corrupt=False):
         pool.terminate()
         pool.join()
 
+    unobservable = stats.pop('unobservable', 0)
+    bindings = stats.pop('bindings', 0)
     compared = sum(stats.values())
     if compared == 0 or compared != sum(ncases.values()):
         raise common.Machinery('compared %d of %d cases' % (compared, sum(ncases.values())))
+    if bindings == 0 or unobservable > bindings:
+        raise common.Machinery('overload binding observed in %d calls, unobservable in %d: the checked tree '
+                               'no longer exposes FuncCall.args/.type' % (bindings, unobservable))
 
     # group the disagreements: one violation per (kind, rule)
     groups = {}
@@ -205,14 +229,19 @@ def run(tier, seed, cache=None, corrupt=False):
     for (pos, verdict, outcome), v in stats.items():
         per_pos[pos] = per_pos.get(pos, 0) + v
         per_verdict[verdict] = per_verdict.get(verdict, 0) + v
+    per_action = {}
+    for pos, v in per_pos.items():
+        per_action[ACTION_OF[pos]] = per_action.get(ACTION_OF[pos], 0) + v
     coverage = {
         'states': sum(m['distinct'] for m in tlc_meta.values()),
         'transitions': sum(m['generated'] for m in tlc_meta.values()),
         'traces_validated_against_impl': compared,
         'exhaustive': 'every case of the universes of Types.tla sections 5-8 for tier %s' % tier,
         'cases_per_family': ncases, 'cases_per_position': dict(sorted(per_pos.items())),
+        'cases_per_spec_action': dict(sorted(per_action.items())),
         'cases_per_verdict': per_verdict, 'tlc': tlc_meta,
         'tlc_wall_s': max(m['wall'] for m in tlc_meta.values()),
+        'overload_bindings_observed': bindings, 'overload_bindings_unobservable': unobservable,
         'disagreements': len(all_bad), 'violation_groups': len(groups),
         'samples': samples,
     }
@@ -244,6 +273,8 @@ def replay(path):
     src, obs = types_cases.render(c)
     outcome, msg, bound = types_cases.observe(src, obs)
     kind = _judge(c, outcome, bound, obs)
+    if kind == 'unobservable':
+        raise common.Machinery('the call node was not found in the checked tree')
     print(src)
     print('expected %s (overload %d, rule %s); observed %s %s %s' % (c.verdict, c.ov, c.why, outcome, msg, bound or ''))
     if kind:
